@@ -25,7 +25,7 @@ def run(tier, scratch, t0, replay=None):
     # fresh files from every reference interpreter
     batches = D.build_batches(scratch, sorted(K.available_interps()), tier, "C12", n_stdlib=6 if quick else 300,
                               n_gen=10 if quick else 150, batch=40, with_corpus=False, gen_snippets=3 if quick else None,
-                              must_templates=["t_ext_edges", "t_py2_raise", "t_strings", "t_try_nest", "t_async", "t_class3", "t_comp", "t_misc",
+                              must_templates=["t_opcode_zoo", "t_opcode_zoo2", "t_ext_edges", "t_py2_raise", "t_strings", "t_try_nest", "t_async", "t_class3", "t_comp", "t_misc",
                                               "t_shared_frozenset", "t_ints"])
 
     def compile_batch(b):
